@@ -88,12 +88,14 @@ package keygen
 //@   requires [own-dealing-from-round-1] len(round.temp.shares) == kgN(round) && (forall k in 0..len(round.temp.shares) :: (round.temp.shares[k] != nil && round.temp.shares[k].ID != nil && round.temp.shares[k].Share != nil)) && len(round.temp.ssid) <= 4096 && cap(round.temp.ssid) == len(round.temp.ssid) && (forall k in 0..len(round.temp.deCommitPolyG) :: round.temp.deCommitPolyG[k] != nil)
 //@   requires [save-lists-separate] arr(round.save.NTildej) != arr(round.save.H1j) && arr(round.save.NTildej) != arr(round.save.H2j) && arr(round.save.H1j) != arr(round.save.H2j) && arr(round.temp.KGCs) != arr(round.save.NTildej) && arr(round.temp.KGCs) != arr(round.save.H1j) && arr(round.temp.KGCs) != arr(round.save.H2j)
 //@   requires [own-key-material] round.save.LocalPreParams.PaillierSK != nil && round.save.LocalPreParams.PaillierSK.PublicKey.N != nil && val(round.save.LocalPreParams.PaillierSK.PublicKey.N) > 0 && bitlen(val(round.save.LocalPreParams.PaillierSK.PublicKey.N)) <= 2100 && round.save.LocalPreParams.PaillierSK.P != nil && round.save.LocalPreParams.PaillierSK.Q != nil && val(round.save.LocalPreParams.PaillierSK.P) >= 0 && val(round.save.LocalPreParams.PaillierSK.Q) >= 0 && round.save.NTildej[kgI(round)] != nil && val(round.save.NTildej[kgI(round)]) > 0 && bitlen(val(round.save.NTildej[kgI(round)])) <= 2100 && round.save.H1j[kgI(round)] != nil && round.save.H2j[kgI(round)] != nil
+//@   requires [own-ring-pedersen-parameters-from-round-1] round.save.NTildej[kgI(round)] != nil && val(round.save.NTildej[kgI(round)]) > 0 && bitlen(val(round.save.NTildej[kgI(round)])) <= 2100 && round.save.H1j[kgI(round)] != nil && round.save.H2j[kgI(round)] != nil
 //@   modifies round.number, round.started, round.ok[*], round.save.PaillierPKs[*], round.save.NTildej[*], round.save.H1j[*], round.save.H2j[*], round.temp.KGCs[*], round.temp.kgRound2Message1s[*], round.temp.kgRound2Message2s[*], sent(round.out)
 //@   loop 0 invariant round.started && fresh(dlnProof1FailCulprits) && fresh(dlnProof2FailCulprits) && len(dlnProof1FailCulprits) == kgN(round) && len(dlnProof2FailCulprits) == kgN(round) && dlnVerifier != nil && wg != nil && h1H2Map != nil && fresh(h1H2Map)
 //@   loop 0 invariant forall k in 0..$iter :: bitlen(kgNT(round.temp.kgRound1Messages[k])) == 2048
 //@   loop 1 invariant round.started && (forall k in 0..kgN(round) :: bitlen(kgNT(round.temp.kgRound1Messages[k])) == 2048)
 //@   loop 2 invariant round.started && (forall k in 0..kgN(round) :: bitlen(kgNT(round.temp.kgRound1Messages[k])) == 2048)
 //@   loop 2 invariant forall k in 0..$iter :: (k != i ==> (round.save.NTildej[k] != nil && val(round.save.NTildej[k]) > 0 && bitlen(val(round.save.NTildej[k])) == 2048 && round.save.H1j[k] != nil && round.save.H2j[k] != nil))
+//@   loop 2 invariant [own-slot-untouched] i == kgI(round) && round.save.NTildej[i] == old(round.save.NTildej[i]) && round.save.H1j[i] == old(round.save.H1j[i]) && round.save.H2j[i] == old(round.save.H2j[i])
 //@   loop 3 invariant round.started && (forall k in 0..kgN(round) :: (round.save.NTildej[k] != nil && val(round.save.NTildej[k]) > 0 && bitlen(val(round.save.NTildej[k])) <= 2100 && round.save.H1j[k] != nil && round.save.H2j[k] != nil))
 
 // ----- round_4.go: verify every peer's Paillier key proof, then emit the key data -----
@@ -163,9 +165,9 @@ package keygen
 //@   ensures [C03.a-result-without-error-carries-a-verified-commitment-row] isnil(sentf(ch, old(sent(ch)), "unWrappedErr")) ==> (kgRow(round, sentf(ch, old(sent(ch)), "pjVs")) && fresh(sentf(ch, old(sent(ch)), "pjVs")))
 //@   ensures [C20.curve-field-rewritten-with-same-value] fieldheap("crypto.ECPoint", "curve") == old(fieldheap("crypto.ECPoint", "curve"))
 
-//@ define kgChResEc(round, ch) = (isnil(sentf(ch, 0, "unWrappedErr")) ==> kgRow(round, sentf(ch, 0, "pjVs")))
+//@ define kgChResEc(round, ch, Vc) = (isnil(sentf(ch, 0, "unWrappedErr")) ==> (kgRow(round, sentf(ch, 0, "pjVs")) && arr(sentf(ch, 0, "pjVs")) != arr(Vc)))
 //@ func (*round3).Start
-//@   deadpoints 6
+//@   deadpoints 4
 //@   note dead: the two `len(culprits) > 0` returns (nothing is appended any more since fix 95e34fe returns at the first bad sum) and the error branch of NewECPoint on the already validated Vc[0]
 //@   props C06 C05 C03
 //@   requires round != nil && round.round2 != nil && round.round2.round1 != nil && round.round2.round1.base != nil && ecKgWF(round)
@@ -180,11 +182,11 @@ package keygen
 //@   loop 2 invariant (forall k in 0..$iter :: (k != PIdx ==> (chs[k] != nil && fresh(chs[k]) && sent(chs[k]) == 0 && recvd(chs[k]) == 0 && chs[k] != round.out))) && (forall a, b in 0..$iter :: ((a != b && a != PIdx && b != PIdx) ==> chs[a] != chs[b]))
 //@   loop 3 invariant round.started && fresh(Vc) && kgRow(round, Vc) && fresh(chs) && len(chs) == kgN(round) && Ps == round.Parameters.parties.partyIDs && PIdx == kgI(round)
 //@   loop 3 invariant (forall k in 0..kgN(round) :: (k != PIdx ==> (chs[k] != nil && fresh(chs[k]) && recvd(chs[k]) == 0 && chs[k] != round.out))) && (forall a, b in 0..kgN(round) :: ((a != b && a != PIdx && b != PIdx) ==> chs[a] != chs[b]))
-//@   loop 3 invariant forall k in 0..kgN(round) :: (k != PIdx ==> ((k < $iter ==> (sent(chs[k]) == 1 && kgChResEc(round, chs[k]))) && (k >= $iter ==> sent(chs[k]) == 0)))
+//@   loop 3 invariant forall k in 0..kgN(round) :: (k != PIdx ==> ((k < $iter ==> (sent(chs[k]) == 1 && kgChResEc(round, chs[k], Vc))) && (k >= $iter ==> sent(chs[k]) == 0)))
 //@   loop 4 invariant round.started && fresh(Vc) && kgRow(round, Vc) && fresh(chs) && len(chs) == kgN(round) && fresh(vssResults) && len(vssResults) == kgN(round) && fresh(culprits) && arr(vssResults) != arr(chs) && Ps == round.Parameters.parties.partyIDs && PIdx == kgI(round)
 //@   loop 4 invariant (forall k in 0..kgN(round) :: (k != PIdx ==> (chs[k] != nil && chs[k] != round.out))) && (forall a, b in 0..kgN(round) :: ((a != b && a != PIdx && b != PIdx) ==> chs[a] != chs[b]))
-//@   loop 4 invariant forall k in $iter..kgN(round) :: (k != PIdx ==> (sent(chs[k]) == 1 && recvd(chs[k]) == 0 && kgChResEc(round, chs[k])))
-//@   loop 4 invariant forall k in 0..$iter :: (k != PIdx ==> (isnil(vssResults[k].unWrappedErr) ==> kgRow(round, vssResults[k].pjVs)))
+//@   loop 4 invariant forall k in $iter..kgN(round) :: (k != PIdx ==> (sent(chs[k]) == 1 && recvd(chs[k]) == 0 && kgChResEc(round, chs[k], Vc)))
+//@   loop 4 invariant forall k in 0..$iter :: (k != PIdx ==> (isnil(vssResults[k].unWrappedErr) ==> (kgRow(round, vssResults[k].pjVs) && arr(vssResults[k].pjVs) != arr(Vc))))
 //@   loop 4 invariant len(culprits) == 0 ==> (forall k in 0..$iter :: (k != PIdx ==> isnil(vssResults[k].unWrappedErr)))
 //@   loop 5 invariant round.started && len(culprits) > 0
 //@   loop 6 invariant round.started && fresh(Vc) && len(Vc) == round.Parameters.threshold + 1 && fresh(vssResults) && len(vssResults) == kgN(round) && fresh(culprits) && Ps == round.Parameters.parties.partyIDs && PIdx == kgI(round)
